@@ -228,6 +228,16 @@ Proof.
   destruct l; [destruct m; reflexivity|]. cbn [skipn Nat.add]. apply IH.
 Qed.
 
+Lemma replies_in (P : req -> Prop) : forall q s x r,
+  Forall P q -> In (x, r) (replies s q) -> P x.
+Proof.
+  induction q as [|y q IH]; intros s x r HF Hin; [contradiction|].
+  inversion HF as [|? ? Hy Hq]; subst.
+  cbn [replies] in Hin. destruct (pop s) as [r0 s0]. destruct Hin as [Hin|Hin].
+  - inversion Hin; subst. exact Hy.
+  - exact (IH _ _ _ Hq Hin).
+Qed.
+
 (* ---------- method order ---------- *)
 Definition rk := meth_rank.
 Fixpoint sortedP (ms : list meth) : Prop :=
@@ -269,7 +279,14 @@ Proof.
 Qed.
 
 (* ---------- Open's request sequence ---------- *)
-Definition plan_post (user : bool) (ms : list meth) (s : script) (k : cstate)
+(* the Session state when the last request of the plan is built *)
+Fixpoint sess_before_last (ms : list meth) (init : bool) : bool :=
+  match ms with
+  | [] => init
+  | m :: rest => match rest with [] => init | _ => sess_before_last rest (sess_after m ROk) end
+  end.
+
+Definition plan_post (user : bool) (ms : list meth) (st : cst) (s : script) (k : cstate)
   (res : bool * cst * list req * script) : Prop :=
   let '(ok, st', q, s') := res in
   s' = skipn (length q) s /\
@@ -281,12 +298,13 @@ Definition plan_post (user : bool) (ms : list meth) (s : script) (k : cstate)
     (ok = true -> Rinv st' k' /\ (user = false -> a_realm st' = false) /\
        (forall m', (count_meth m' ms <= count_meth m' (map q_meth q))%nat) /\
        (ms <> [] -> a_sess st' = sess_after (last ms MOptions) ROk /\
-                    exists x, last_pair (replies s q) = Some (x, ROk) /\ q_meth x = last ms MOptions)) /\
+                    exists x, last_pair (replies s q) = Some (x, ROk) /\ q_meth x = last ms MOptions /\
+                              q_sess x = sess_before_last ms (a_sess st))) /\
     (ok = false -> exists x r, last_pair (replies s q) = Some (x, r) /\ is_ok r = false).
 
 Lemma run_plan_spec user : forall ms st s k,
   sortedP ms -> Rinv st k -> (user = false -> a_realm st = false) ->
-  plan_post user ms s k (run_plan user ms st s).
+  plan_post user ms st s k (run_plan user ms st s).
 Proof.
   induction ms as [|m ms IH]; intros st s k Hs HR Hu.
   - cbn [run_plan]. unfold plan_post. repeat split; try reflexivity; try constructor.
@@ -318,9 +336,7 @@ Proof.
           pose proof Hlast as HL. unfold last_pair in HL.
           destruct (rev (replies s (x0 :: q0))) as [|p t] eqn:E; [discriminate|]. inversion HL; subst p.
           assert (Hin : In (xl, ROk) (replies s (x0 :: q0))) by (apply in_rev; rewrite E; left; reflexivity).
-          clear -Hin R3. revert s Hin. induction R3 as [|y l [Hy _] _ IHl]; intros s Hin; [contradiction|].
-          cbn [replies] in Hin. destruct (pop s). destruct Hin as [Hin|Hin]; [inversion Hin; subst; exact Hy|].
-          exact (IHl _ Hin). }
+          exact (replies_in _ _ _ _ _ R3 Hin). }
       specialize (IH st1 s1 k1 Hs' HR1 Hu1).
       destruct (run_plan user (m2 :: ms2) st1 s1) as [[[ok2 st2] q2] s2]. unfold plan_post in IH |- *.
       destruct IH as (I1 & I2 & I3 & I4 & I5 & k2 & I6 & I7 & I8).
@@ -339,10 +355,11 @@ Proof.
            change (m :: m2 :: ms2) with ([m] ++ (m2 :: ms2)). rewrite count_meth_app.
            pose proof (count_meth_const m' m (map q_meth (x0 :: q0)) Hq ltac:(discriminate)).
            specialize (J3 m'). lia.
-        -- intros _. destruct (J4 ltac:(discriminate)) as (K1 & xk & K2 & K3).
+        -- intros _. destruct (J4 ltac:(discriminate)) as (K1 & xk & K2 & K3 & K4).
            change (last (m :: m2 :: ms2) MOptions) with (last (m2 :: ms2) MOptions).
-           split; [exact K1|]. exists xk. split; [|exact K3].
-           rewrite last_pair_app; [exact K2|]. apply replies_nonempty. exact Hq2.
+           split; [exact K1|]. exists xk. split; [|split; [exact K3|]].
+           ++ rewrite last_pair_app; [exact K2|]. apply replies_nonempty. exact Hq2.
+           ++ rewrite K4, Hsess. reflexivity.
       * intros Hok. destruct (I8 Hok) as (xx & rr & K1 & K2). exists xx, rr. split; [|exact K2].
         rewrite last_pair_app; [exact K1|]. apply replies_nonempty. exact Hq2.
     + destruct (R7 eq_refl) as (xx & rr & K1 & K2). unfold plan_post.
@@ -353,3 +370,199 @@ Proof.
       split; [intros H; exact (proj2 (R4 H))|].
       exists k1. split; [exact R5|]. split; [discriminate|]. intros _. exists xx, rr. split; assumption.
 Qed.
+
+(* ---------- GetOrCreate ---------- *)
+Lemma sorted_plan c : sortedP (plan c).
+Proof.
+  destruct c as [u v a b r]. unfold plan, setups; cbn [c_video c_audio c_sdp_bad].
+  destruct v, a, b; cbn; repeat (split || constructor); cbn; lia.
+Qed.
+
+Lemma Rinv0 : Rinv cst0 k0.
+Proof. split; [discriminate|]. split; [discriminate|]. exact I. Qed.
+
+Lemma world_eqb_refl w : world_eqb w w = true.
+Proof. unfold world_eqb. rewrite eqb_reflx, !Z.eqb_refl. reflexivity. Qed.
+
+Lemma world_eqb_eq a b : world_eqb a b = true -> a = b.
+Proof.
+  unfold world_eqb. intros H. apply andb_prop in H as [H H4]. apply andb_prop in H as [H H3].
+  apply andb_prop in H as [H1 H2]. destruct a, b; cbn in *.
+  apply eqb_prop in H1. apply Z.eqb_eq in H2, H3, H4. subst. reflexivity.
+Qed.
+
+Lemma ended_started w : ended (started w) = w.
+Proof. destruct w as [r c n g]. unfold ended, started; cbn. Abort.
+
+(* [ended (started w)] restores everything but the registration flag, which becomes false *)
+Lemma ended_started w : w_reg w = false -> ended (started w) = w.
+Proof. destruct w as [r c n g]. cbn. intros ->. unfold ended, started; cbn. f_equal; lia. Qed.
+
+Lemma pop_tl (s : script) : snd (pop s) = tl s.
+Proof. destruct s; reflexivity. Qed.
+
+Lemma Forall_forallb {A} (f : A -> bool) l : Forall (fun x => f x = true) l -> forallb f l = true.
+Proof. induction 1; cbn; [reflexivity|]. rewrite H, IHForall. reflexivity. Qed.
+
+Lemma order_ok_of (q : list req) :
+  match q with x :: _ => q_meth x = MOptions | [] => False end ->
+  nondecreasing (map q_meth q) = true -> order_ok (map q_meth q) = true.
+Proof. destruct q as [|x q]; [contradiction|]. cbn [map]. intros -> H. exact H. Qed.
+
+Lemma last_req_of_pair s q x r :
+  last_pair (replies s q) = Some (x, r) -> last_req_accepted s q = meth_eqb (q_meth x) MPlay && is_ok r.
+Proof.
+  unfold last_pair, last_req_accepted. destruct (rev (replies s q)) as [|[x' r'] t]; [discriminate|].
+  intros H. inversion H. reflexivity.
+Qed.
+
+(* the answer of one request that starts with nothing registered:
+   (answer, requests, world, script left, a pull client runs) *)
+Definition request_post (c : cfg) (w : world) (s : script)
+  (res : outcome * list req * world * script * bool) : Prop :=
+  let '(out, q, w1, s1, runs) := res in
+  creds_ok (tl s) q = true /\
+  (c_user c = false -> Forall (fun x => auth_none (q_auth x) = true) q) /\
+  (q = [] \/ order_ok (map q_meth q) = true) /\
+  match out with
+  | Playing =>
+      c_routed c = true /\ c_sdp_bad c = false /\ w1 = started w /\ runs = true /\
+      order_ok (map q_meth q) = true /\
+      last_req_accepted (tl s) q = true /\
+      (forall m, (count_meth m (plan c) <= count_meth m (map q_meth q))%nat) /\
+      (exists x, last_pair (replies (tl s) q) = Some (x, ROk) /\ q_meth x = MPlay /\
+                 q_sess x = (c_video c || c_audio c)) /\
+      s1 = skipn (length q) (tl s)
+  | Failed =>
+      w1 = w /\ runs = false /\ last_req_accepted (tl s) q = false
+  end.
+
+Lemma plan_facts c : c_sdp_bad c = false ->
+  last (plan c) MOptions = MPlay /\ sess_before_last (plan c) false = (c_video c || c_audio c).
+Proof.
+  destruct c as [u v a b r]. cbn [c_sdp_bad c_video c_audio]. intros ->.
+  unfold plan, setups; cbn [c_video c_audio c_sdp_bad]. destruct v, a; split; reflexivity.
+Qed.
+
+Lemma request_spec c w s : w_reg w = false -> request_post c w s (request c w s).
+Proof.
+  intros Hw. unfold request. rewrite Hw.
+  destruct (c_routed c) eqn:Er; cbn [negb].
+  2:{ unfold request_post. repeat split; auto. }
+  pose proof (pop_tl s) as Htl. destruct (pop s) as [r0 s0]. cbn [snd] in Htl. subst s0.
+  destruct (is_ok r0); cbn [negb].
+  2:{ unfold request_post. repeat split; auto. }
+  pose proof (run_plan_spec (c_user c) (plan c) cst0 (tl s) k0 (sorted_plan c) Rinv0 (fun _ => eq_refl)) as P.
+  destruct (run_plan (c_user c) (plan c) cst0 (tl s)) as [[[ok st] q] s1].
+  unfold plan_post in P. destruct P as (P1 & P2 & P3 & P4 & P5 & k' & P6 & P7 & P8).
+  assert (Hhd : match q with x :: _ => q_meth x = MOptions | [] => False end).
+  { unfold plan in P2. destruct q; [contradiction|exact P2]. }
+  assert (Hord : order_ok (map q_meth q) = true) by (apply order_ok_of; assumption).
+  assert (Hcreds : creds_ok (tl s) q = true) by (unfold creds_ok; rewrite P6; reflexivity).
+  destruct ok; cbn [andb].
+  - destruct (P7 eq_refl) as (J1 & J2 & J3 & J4).
+    destruct (J4 ltac:(unfold plan; discriminate)) as (K1 & x & K2 & K3 & K4).
+    destruct (c_sdp_bad c) eqn:Eb; cbn [negb].
+    + (* the description is unusable: the last request was DESCRIBE *)
+      unfold request_post. split; [exact Hcreds|]. split; [exact P5|]. split; [right; exact Hord|].
+      split; [reflexivity|]. split; [reflexivity|].
+      rewrite (last_req_of_pair _ _ _ _ K2), K3. unfold plan. rewrite Eb. reflexivity.
+    + destruct (plan_facts c Eb) as [F1 F2].
+      unfold request_post. split; [exact Hcreds|]. split; [exact P5|]. split; [right; exact Hord|].
+      split; [exact Er|]. split; [exact Eb|]. split; [reflexivity|]. split; [reflexivity|].
+      split; [exact Hord|].
+      split. { rewrite (last_req_of_pair _ _ _ _ K2), K3, F1. reflexivity. }
+      split; [exact J3|].
+      split. { exists x. split; [exact K2|]. split; [rewrite K3; exact F1|]. rewrite K4. exact F2. }
+      exact P1.
+  - destruct (P8 eq_refl) as (x & r & K1 & K2).
+    unfold request_post. split; [exact Hcreds|]. split; [exact P5|]. split; [right; exact Hord|].
+    split; [reflexivity|]. split; [reflexivity|].
+    rewrite (last_req_of_pair _ _ _ _ K1), K2. apply andb_false_r.
+Qed.
+
+(* ---------- one round, many rounds ---------- *)
+Lemma request_registered c w : c_routed c = true -> w_reg w = true ->
+  request c w [] = (Playing, [], w, [], false).
+Proof. intros Hr Hw. unfold request. rewrite Hr, Hw. reflexivity. Qed.
+
+Lemma count_plan c : c_sdp_bad c = false ->
+  (1 <= count_meth MDescribe (plan c))%nat /\
+  ((if c_video c then 1 else 0) + (if c_audio c then 1 else 0) <= count_meth MSetup (plan c))%nat.
+Proof.
+  destruct c as [u v a b r]. cbn [c_sdp_bad c_video c_audio]. intros ->.
+  unfold plan, setups; cbn [c_video c_audio c_sdp_bad]. destruct v, a; cbn; lia.
+Qed.
+
+Lemma round_spec c w s : w_reg w = false ->
+  ok_round c w s (fst (round c w s)) = true /\ snd (round c w s) = w.
+Proof.
+  intros Hw. unfold round. pose proof (request_spec c w s Hw) as R.
+  destruct (request c w s) as [[[[out q] w1] s1] runs]. unfold request_post in R.
+  destruct R as (R1 & R2 & R3 & R4). cbn [fst snd].
+  assert (Hnone : c_user c || forallb (fun x => auth_none (q_auth x)) q = true).
+  { destruct (c_user c); [reflexivity|]. cbn [orb]. apply Forall_forallb. apply R2. reflexivity. }
+  destruct out.
+  - destruct R4 as (-> & -> & R5). split; [|reflexivity].
+    unfold ok_round; cbn [o_final o_closed o_reqs o_out o_mid o_delivered o_again].
+    rewrite world_eqb_refl, R1, Hnone, R5. cbn [andb negb]. rewrite Z.eqb_refl.
+    destruct R3 as [->|R3]; [reflexivity|]. rewrite R3. destruct q; reflexivity.
+  - destruct R4 as (Hr & Hb & -> & -> & R5 & R6 & R7 & (x & R8 & R9 & R10) & ->).
+    split; [|apply ended_started; exact Hw].
+    unfold ok_round; cbn [o_final o_closed o_reqs o_out o_mid o_delivered o_again].
+    rewrite (ended_started w Hw), world_eqb_refl, R1, Hnone, Hr, Hb, R5, R6. cbn [andb negb].
+    unfold playing_world. rewrite world_eqb_refl.
+    rewrite (request_registered c (started w) Hr eq_refl). rewrite world_eqb_refl. cbn [andb].
+    destruct (count_plan c Hb) as [C1 C2].
+    replace (1 <=? count_meth MDescribe (map q_meth q))%nat with true
+      by (symmetry; apply Nat.leb_le; specialize (R7 MDescribe); lia).
+    replace ((if c_video c then 1 else 0) + (if c_audio c then 1 else 0) <=? count_meth MSetup (map q_meth q))%nat
+      with true by (symmetry; apply Nat.leb_le; specialize (R7 MSetup); lia).
+    cbn [andb]. rewrite Z.eqb_refl, andb_true_r.
+    unfold last_pair in R8. destruct (rev (replies (tl s) q)) as [|p t] eqn:E; [discriminate|].
+    inversion R8; subst p.
+    assert (Hrev : exists t', rev q = x :: t').
+    { clear -E. revert E. generalize (tl s) as s0. intros s0 E.
+      assert (H : map fst (replies s0 q) = q).
+      { clear E. revert s0. induction q as [|y q IH]; intros s0; [reflexivity|].
+        cbn [replies]. destruct (pop s0). cbn. f_equal. apply IH. }
+      rewrite <- H, <- map_rev, E. cbn. eexists; reflexivity. }
+    destruct Hrev as [t' ->]. rewrite R10. destruct (c_video c || c_audio c); reflexivity.
+Qed.
+
+Lemma rounds_spec c : forall ss,
+  ok_rounds c ss (rounds c w0 ss) = true /\
+  rounds c w0 ss = map (fun s => fst (round c w0 s)) ss.
+Proof.
+  induction ss as [|s ss [IH1 IH2]]; [split; reflexivity|].
+  cbn [rounds ok_rounds map]. destruct (round_spec c w0 s eq_refl) as [H1 H2].
+  destruct (round c w0 s) as [o w']. cbn [fst snd] in *. subst w'.
+  rewrite H1, IH1, IH2. split; reflexivity.
+Qed.
+
+(* nothing is left behind by a round, whatever the script *)
+Lemma round_no_leak c w s : w_reg w = false ->
+  let o := fst (round c w s) in
+  snd (round c w s) = w /\ o_final o = w /\ o_closed o = true /\
+  (o_out o = Failed -> o_mid o = w /\ o_delivered o = 0) /\
+  (o_out o = Playing -> o_mid o = started w /\ w_reg (o_mid o) = true /\ o_again o = true /\
+                        o_delivered o = play (skipn (length (o_reqs o)) (tl s))).
+Proof.
+  intros Hw. unfold round. pose proof (request_spec c w s Hw) as R.
+  destruct (request c w s) as [[[[out q] w1] s1] runs]. unfold request_post in R.
+  destruct R as (R1 & R2 & R3 & R4). cbn [fst snd o_final o_closed o_out o_mid o_delivered o_again o_reqs].
+  destruct out.
+  - destruct R4 as (-> & -> & R5). repeat split; try reflexivity; intros; discriminate.
+  - destruct R4 as (Hr & Hb & -> & -> & R5 & R6 & R7 & _ & ->).
+    rewrite (ended_started w Hw). repeat split; try reflexivity; try (intros; discriminate).
+    rewrite (request_registered c (started w) Hr eq_refl). apply world_eqb_refl.
+Qed.
+
+(* ... in particular after every prefix of a script *)
+Lemma prefix_no_leak c s n : snd (round c w0 (firstn n s)) = w0.
+Proof. exact (proj1 (round_no_leak c w0 (firstn n s) eq_refl)). Qed.
+
+(* pre-repair behaviours, as small variants of the model *)
+(* D33: without a read deadline a silent camera never yields an answer: modelled as the missing
+   transition — [RSilence] is the only reply kind whose handling needs the deadline *)
+Definition needs_deadline (r : reply) : bool := match r with RSilence => true | _ => false end.
